@@ -458,6 +458,11 @@ func (mw *msgWriter) writePart(part *Part, charset Charset) {
 	contentTransferEnc := part.encoding.String()
 
 	if mw.depth == 0 {
+		if part.description != "" {
+			// a message that consists of a single part carries the part's description in the message header
+			mw.writeHeader(HeaderContentDescription,
+				mw.encoder.Encode(mw.charset.String(), part.description))
+		}
 		mw.writeHeader(HeaderContentTransferEnc, contentTransferEnc)
 		mw.writeHeader(HeaderContentType, contentType)
 		mw.writeString(SingleNewLine)
